@@ -124,6 +124,11 @@ func NewMultiCIDRSet(cidrConfig *net.IPNet, perNodeHostBits int) (*MultiCIDRSet,
 		subNetMaskSize = 128 - perNodeHostBits
 	}
 
+	if perNodeHostBits < 0 || subNetMaskSize < clusterMaskSize {
+		return nil, fmt.Errorf("creation of new CIDR set failed for %s: perNodeHostBits %d must be between 0 and %d",
+			cidrConfig.String(), perNodeHostBits, bits-clusterMaskSize)
+	}
+
 	if netutils.IsIPv6(cidrConfig.IP) && (subNetMaskSize-clusterMaskSize > clusterSubnetMaxDiff) {
 		return nil, &CIDRSetSubNetTooBigErr{
 			cidr:            cidrConfig.String(),
